@@ -362,9 +362,13 @@ def check(prop_id, tier):
         'wall_s': round(wall, 2),
         'violations': len(reported),
     }
-    os.makedirs(os.path.join(VERIF, 'evidence'), exist_ok=True)
-    with open(os.path.join(VERIF, 'evidence', f'{prop_id}.json'), 'w') as f:
-        json.dump(evidence, f, indent=1, sort_keys=True, default=str)
+    if os.path.abspath(os.environ.get('PYCEL_SRC', '/repo/src')) == '/repo/src':
+        os.makedirs(os.path.join(VERIF, 'evidence'), exist_ok=True)
+        with open(os.path.join(VERIF, 'evidence', f'{prop_id}.json'), 'w') as f:
+            json.dump(evidence, f, indent=1, sort_keys=True, default=str)
+    else:
+        print(f'[{prop_id}] PYCEL_SRC={os.environ.get("PYCEL_SRC")}: not /repo/src, evidence '
+              f'file left untouched', flush=True)
     print(f'[{prop_id}] runs={len(results)} distinct_nontrivial={len(sigs)} '
           f'violating_runs={len(violating)} reported={len(reported)} '
           f'known={sum(known_seen.values())} wall={wall:.1f}s', flush=True)
